@@ -58,6 +58,13 @@ class C12(Prop):
 
     def _geom_case(self, rng, t1=None, t2=None):
         g1, g2 = G.rgeom(rng, t1), G.rgeom(rng, t2)
+        for g in (g1, g2):
+            if g["type"] in ("Polygon", "MultiPolygon") and rng.random() < 0.4:
+                # extents are about coordinates, not topology: a self-crossing outline (bowtie) has the extent of its vertices
+                a, f = Fraction(rng.randint(0, 12)), Fraction(rng.randint(0, 40))
+                w, h = Fraction(rng.randint(1, 6)), Fraction(rng.randint(1, 20))
+                ring = [[a, f], [a + w, f + h], [a + w, f], [a, f + h], [a, f]]
+                g["coordinates"] = [ring] if g["type"] == "Polygon" else [[ring]]
         which = rng.choice(["temporal", "frequency"])
         mode = rng.choice(["none", "abs", "rel", "none", "both"])
         a = r = None
